@@ -23,7 +23,8 @@ fn messages(seed: u64, count: usize) -> Vec<Vec<u8>> {
                 1 => 1,
                 2 => 96,
                 3 => 1000,
-                _ => (s % 120) as usize,
+                4 => (s % 120) as usize,
+                _ => (s % 700) as usize,
             };
             (0..len).map(|j| mix(s + j as u64) as u8).collect()
         })
